@@ -385,11 +385,15 @@ def dusk (obs : Obs α) (date : Date) (dep : α) (tz : TZ) : Except Err Instant 
   onMathDomain (rematch (fun d => timeOfTransit obs d (90.0 + dep) .setting) tz.utc date)
     (.error .neverReaches)
 
-/-- the handler of sunrise/sunset: `zenith(observer, noon(observer, date)) > 90` -/
+/-- the handler of sunrise/sunset:
+    `zenith(observer, noon(observer, date)) > 90 + SUN_APPARENT_RADIUS + adjustment_for_elevation(observer)`
+    — the apparent zenith of the sun's centre at its highest against the apparent zenith at which
+    the upper limb touches the observer's (dipped / obscured) horizon -/
 def alwaysVerdict (obs : Obs α) (date : Date) : Except Err Instant := do
   let n ← noon obs date TZ.UTC
   let z := sunZenith obs n (some 0)
-  if 90.0 < z then throw .alwaysBelow else throw .alwaysAbove
+  let adj ← elevationAdjustment obs.elev
+  if 90.0 + sunApparentRadius + adj < z then throw .alwaysBelow else throw .alwaysAbove
 
 def sunrise (obs : Obs α) (date : Date) (tz : TZ) : Except Err Instant :=
   onMathDomain
